@@ -321,6 +321,51 @@ def directed_cases(ck):
             bad('T2t/member-returning-to-its-start', '%r between two lines: T2t(middle of its share %r) = %r, t2T(1, 1) = %r (expected %r), length %r (sum %r)' % (
                 loop, mid, (k, t), p.t2T(1, 1.0), cum[2], p.length(), tot), [1, cum[1], cum[2]], repr((k, t)))
 
+    # (4) the same drawing in ever smaller units: the T-interval of a segment is its share of the length - a ratio, independent of the unit
+    shape = [(0j, 3 + 0j), (3 + 0j, 3 + 4j), (3 + 4j, 0 + 8j, -2 + 3j), (-2 + 3j, 0j)]
+    ref = None
+    for u in (1.0, 1e-3, 1e-6, 1e-9, 3e-10, 1e-11, 1e6):      # (below about 1e-12 QuadraticBezier.length takes every quadratic for a straight line - an absolute test; not claimed)
+        segs = [sp.Line(a_[0] * u, a_[1] * u) if len(a_) == 2 else sp.QuadraticBezier(a_[0] * u, a_[1] * u, a_[2] * u) for a_ in shape]
+        pth = sp.Path(*segs)
+        ck.case(fp=('unit', u), nontrivial=True)
+        try:
+            joints = [pth.t2T(k_, 1.0) for k_ in range(4)] + [pth.T2t(0.5)[0], round(pth.T2t(0.5)[1], 9)]
+            mid = (pth.point(0.5)) / u
+        except Exception as e:      # noqa
+            joints, mid = e, None
+        if ref is None:
+            ref = (joints, mid)
+        elif isinstance(joints, Exception) or any(not (abs(a_ - b_) <= 1e-9) for a_, b_ in zip(joints, ref[0])) or not (abs(mid - ref[1]) <= 1e-8):
+            bad('T-intervals/depend-on-the-unit-of-length', 'the drawing at unit %g: t2T(k, 1), T2t(.5), point(.5)/unit = %r, %r; at unit 1: %r' % (u, joints, mid, ref), repr(ref), repr((joints, mid)))
+    # (5) a path measured loosely, then copied (reversed / translated / rotated / scaled): the copy's T-intervals are the accurate shares, like a newly built path's
+    cusp = sp.CubicBezier(0j, 10 + 10j, 0 + 10j, 10 + 0j)
+    ell = sp.Arc(10 + 0j, 6 + 2j, 25, False, True, 16 + 3j)
+    base1 = sp.Path(sp.Line(-4 + 0j, 0j), cusp, ell, sp.Line(16 + 3j, 20 + 3j))
+    # near-cusps: a loose quadrature of these is visibly off
+    base2 = sp.Path(sp.Line(-10 - 3j, -4 + 1j), sp.CubicBezier(-4 + 1j, 9 + 4j, -7 + 0j, 2j), sp.Line(2j, 12 + 5j), sp.CubicBezier(12 + 5j, 15 - 10j, 13 + 10j, 10 - 5j))
+    for base in (base1, base2):
+      copies = [('reversed', lambda q: q.reversed(), lambda L_: L_[::-1]), ('translated', lambda q: q.translated(5 - 2j), lambda L_: L_), ('rotated', lambda q: q.rotated(40, origin=0j), lambda L_: L_),
+                ('scaled', lambda q: q.scaled(2), lambda L_: L_)]
+      acc = [s_.length() for s_ in sp.Path(*[type(s_)(*s_.bpoints()) if not isinstance(s_, sp.Arc) else sp.Arc(s_.start, s_.radius, s_.rotation, s_.large_arc, s_.sweep, s_.end) for s_ in base])]
+      for nm, mk_, order in copies:
+          for loose in ({'error': 1e-1, 'min_depth': 1}, {'error': 0.5}, {'error': 3.0, 'min_depth': 0}, {'error': 1e-2}, None):
+              src = sp.Path(*[type(s_)(*s_.bpoints()) if not isinstance(s_, sp.Arc) else sp.Arc(s_.start, s_.radius, s_.rotation, s_.large_arc, s_.sweep, s_.end) for s_ in base])
+              ck.case(fp=('loose-then-copy', nm, str(loose)), nontrivial=True)
+              try:
+                  if loose is not None:
+                      src.length(**loose)
+                  q = mk_(src)
+                  lens = order(acc)
+                  tot = sum(lens)
+                  want = [sum(lens[:k_ + 1]) / tot for k_ in range(4)]
+                  got = [q.t2T(k_, 1.0) for k_ in range(4)]
+                  k2, t2 = q.T2t((want[1] + want[2]) / 2 if nm != 'reversed' else (want[0] + want[1]) / 2)
+                  ok = all(abs(a_ - b_) <= 2e-6 for a_, b_ in zip(got, want)) and k2 == (2 if nm != 'reversed' else 1)
+              except Exception as e:      # noqa
+                  ok, got, want = False, repr(e), None
+              if not ok:
+                  bad('T-intervals/copy-of-a-loosely-measured-path', '%s of a path after length(%s): joints at T = %r, accurate shares %r' % (nm, loose, got, want), repr(want), repr(got))
+
 
 def run(ck):
     rnd = random.Random(ck.seed)
